@@ -17,6 +17,7 @@ import (
 
 	"github.com/twitchtv/twirp"
 	"github.com/twitchtv/twirp/ctxsetters"
+	"go.miragespace.co/specter/spec/chord"
 	"go.miragespace.co/specter/spec/protocol"
 	"go.miragespace.co/specter/spec/transport"
 	"go.miragespace.co/specter/spec/tun"
@@ -40,6 +41,14 @@ var keylessMethods = []string{"GetCertificate", "Sign"}
 
 const victimHost = "alice-host-one-two-three"
 const customHost = "app.customer.net"
+
+var retryableKVErrs = []error{chord.ErrKVStaleOwnership, chord.ErrKVPendingTransfer, context.DeadlineExceeded}
+var retryableIdx int
+
+func hlibPickErr() error {
+	retryableIdx++
+	return retryableKVErrs[retryableIdx%len(retryableKVErrs)]
+}
 
 func main() {
 	r := hlib.Start()
@@ -99,6 +108,8 @@ func main() {
 			put(key, []byte{0xff, 0xff, 0xff})
 		case "kverr":
 			node.FailGet[key] = errors.New("ring unavailable")
+		case "kverr-retryable": // what the lookup returns during a join/leave hand-off or on a timeout
+			node.FailGet[key] = hlibPickErr()
 		case "client":
 			put(key, mustVT(&protocol.Node{Id: 42, Address: callerTok, Rendezvous: true}))
 		case "oldclient":
@@ -251,7 +262,7 @@ func main() {
 
 	methods := append(append(append([]string{}, tunnelMethods...), keylessMethods...), "Nope")
 	callers := []string{"nodeleg", "nocert", "badsubject", "badversion", "panicid"}
-	recs := []string{"absent", "empty", "undecodable", "kverr", "client", "oldclient"}
+	recs := []string{"absent", "empty", "undecodable", "kverr", "kverr-retryable", "client", "oldclient"}
 	bodies := []string{"valid", "empty", "garbage", "json"}
 	rounds := 1
 	if r.Thorough() {
